@@ -1,1 +1,465 @@
 // Suites that need access to items private to this module (feature ipa-verif, test builds only).
+//
+// Included as `helpers::gateway::ipa_verif_hook`.  C13 suites:
+//   c13_config      c13.config <active> <read_size> <record_size> <u|i|s<n>>
+//   c13_collection  c13.coll <op,op,…>            (StreamCollection op sequences)
+//   c13_channel     c13.chan <active> <read_size> <size> <i|s<n>> <op,op,…>   (real Gateway pair)
+
+mod c13_common {
+    use std::{
+        convert::Infallible,
+        sync::{Arc, Mutex},
+        task::{Wake, Waker},
+    };
+
+    use generic_array::{ArrayLength, GenericArray};
+
+    use crate::{ff::Serializable, helpers::MpcMessage};
+
+    pub struct LogWaker {
+        pub id: usize,
+        pub log: Arc<Mutex<Vec<usize>>>,
+    }
+
+    impl Wake for LogWaker {
+        fn wake(self: Arc<Self>) {
+            self.log.lock().unwrap().push(self.id);
+        }
+        fn wake_by_ref(self: &Arc<Self>) {
+            self.log.lock().unwrap().push(self.id);
+        }
+    }
+
+    pub fn waker(id: usize, log: &Arc<Mutex<Vec<usize>>>) -> Waker {
+        Waker::from(Arc::new(LogWaker { id, log: Arc::clone(log) }))
+    }
+
+    /// `N` arbitrary bytes, allowed on MPC channels for the purpose of the test.
+    #[derive(Clone, PartialEq, Eq)]
+    pub struct C13Msg<N: ArrayLength>(pub GenericArray<u8, N>);
+
+    impl<N: ArrayLength> std::fmt::Debug for C13Msg<N> {
+        fn fmt(&self, f: &mut std::fmt::Formatter<'_>) -> std::fmt::Result {
+            write!(f, "C13Msg({:?})", self.0.as_slice())
+        }
+    }
+
+    impl<N: ArrayLength> Serializable for C13Msg<N> {
+        type Size = N;
+        type DeserializationError = Infallible;
+
+        fn serialize(&self, buf: &mut GenericArray<u8, Self::Size>) {
+            buf.copy_from_slice(&self.0);
+        }
+
+        fn deserialize(buf: &GenericArray<u8, Self::Size>) -> Result<Self, Self::DeserializationError> {
+            Ok(Self(buf.clone()))
+        }
+    }
+
+    impl<N: ArrayLength> MpcMessage for C13Msg<N> {}
+}
+
+mod c13_config {
+    use std::num::NonZeroUsize;
+
+    use super::super::{GatewayConfig, send::ipa_verif_send_channel_config};
+    use crate::{
+        helpers::TotalRecords,
+        ipa_verif::proto::*,
+        utils::NonZeroU32PowerOfTwo,
+    };
+
+    pub fn parse_total(s: &str) -> TotalRecords {
+        match s.as_bytes()[0] {
+            b'u' => TotalRecords::Unspecified,
+            b'i' => TotalRecords::Indeterminate,
+            b's' => TotalRecords::specified(s[1..].parse().unwrap()).unwrap(),
+            _ => panic!("harness: bad total {s}"),
+        }
+    }
+
+    pub fn exec(req: &str) -> String {
+        let t: Vec<&str> = req.split(' ').collect();
+        assert_eq!(t[0], "c13.config");
+        let active: usize = t[1].parse().unwrap();
+        let read_size: usize = t[2].parse().unwrap();
+        let record_size: usize = t[3].parse().unwrap();
+        let total = parse_total(t[4]);
+        let cfg = GatewayConfig {
+            active: NonZeroU32PowerOfTwo::try_from(active).expect("harness: active must be a power of two"),
+            read_size: NonZeroUsize::new(read_size).expect("harness: read_size must be non-zero"),
+            ..Default::default()
+        };
+        match guarded(|| ipa_verif_send_channel_config(cfg, total, record_size)) {
+            Ok((c, r, rd)) => format!("{c} {r} {rd}"),
+            Err(p) => {
+                for tag in ["Message size cannot be 0", "assertion `left == right` failed", "assertion failed", "called `Result::unwrap()` on an `Err` value"] {
+                    if p.contains(tag) {
+                        return format!("panic:{tag}");
+                    }
+                }
+                p
+            }
+        }
+    }
+
+    pub fn generate(rng: &mut Rng, thorough: bool) -> Vec<String> {
+        let mut out = vec![];
+        let actives: Vec<usize> = (0..=16).map(|a| 1usize << a).collect();
+        let mut records: Vec<usize> = (0..=33).collect();
+        records.extend_from_slice(&[63, 64, 65, 100, 255, 256, 257, 1000, 2047, 2048, 2049, 4095, 4096, 4097, 5000]);
+        let reads: Vec<usize> = vec![1, 2, 3, 4, 5, 7, 8, 15, 16, 17, 31, 32, 33, 100, 1024, 2047, 2048, 2049, 4096, 65536];
+        for &a in &actives {
+            for &r in &records {
+                for &rd in &reads {
+                    // the full grid is 17 x 49 x 20 x 3; the quick tier thins the interior
+                    if !thorough && a > 64 && (a + r + rd) % 5 != 0 {
+                        continue;
+                    }
+                    for k in ["i", "s1", "s1000"] {
+                        out.push(format!("c13.config {a} {rd} {r} {k}"));
+                    }
+                }
+            }
+        }
+        for _ in 0..(if thorough { 20_000 } else { 2_000 }) {
+            let a = 1usize << rng.usize_below(20);
+            let (b1, b2) = (rng.bool(), rng.bool());
+            let r = 1 + rng.usize_below(if b1 { 40 } else { 5000 });
+            let rd = 1 + rng.usize_below(if b2 { 64 } else { 100_000 });
+            let k = *rng.pick(&["i", "s1", "s7", "u"]);
+            out.push(format!("c13.config {a} {rd} {r} {k}"));
+        }
+        out
+    }
+
+    #[test]
+    fn verif_c13_config() {
+        run_suite("c13_config", generate, exec);
+    }
+}
+
+mod c13_collection {
+    use std::{
+        pin::Pin,
+        sync::{Arc, Mutex},
+        task::{Context, Poll},
+    };
+
+    use futures::Stream;
+
+    use super::c13_common::waker;
+    use crate::{
+        helpers::{StreamCollection, StreamKey},
+        ipa_verif::proto::*,
+        protocol::{Gate, QueryId},
+        sharding::ShardIndex,
+    };
+
+    struct IdStream(usize);
+
+    impl Stream for IdStream {
+        type Item = ();
+        fn poll_next(self: Pin<&mut Self>, _cx: &mut Context<'_>) -> Poll<Option<()>> {
+            Poll::Ready(None)
+        }
+    }
+
+    fn key(f: &[&str]) -> StreamKey<ShardIndex> {
+        assert_eq!(f[0], "0", "harness: QueryId has a single value");
+        (
+            QueryId,
+            ShardIndex::from(f[1].parse::<u32>().unwrap()),
+            Gate::from(format!("verif/g{}", f[2]).as_str()),
+        )
+    }
+
+    pub fn exec(req: &str) -> String {
+        let t: Vec<&str> = req.split(' ').collect();
+        assert_eq!(t[0], "c13.coll");
+        let coll: StreamCollection<ShardIndex, IdStream> = StreamCollection::default();
+        let log = Arc::new(Mutex::new(Vec::new()));
+        let mut out = vec![];
+        if t[1] != "-" {
+            for op in t[1].split(',') {
+                let f: Vec<&str> = op[1..].split('.').collect();
+                let r = match op.as_bytes()[0] {
+                    b'a' => guarded(|| {
+                        coll.add_stream(key(&f), IdStream(f[3].parse().unwrap()));
+                        let v: Vec<usize> = std::mem::take(&mut *log.lock().unwrap());
+                        format!("ok|{}", if v.is_empty() { "-".to_string() } else { nat_list(&v) })
+                    }),
+                    b'w' => guarded(|| {
+                        let w = waker(f[3].parse().unwrap(), &log);
+                        match coll.add_waker(&key(&f), &w) {
+                            Some(s) => format!("some{}", s.0),
+                            None => "none".to_string(),
+                        }
+                    }),
+                    b'x' => guarded(|| {
+                        coll.clear();
+                        "ok|-".to_string()
+                    }),
+                    _ => panic!("harness: bad op {op}"),
+                };
+                out.push(match r {
+                    Ok(s) => s,
+                    Err(_) => "panic".to_string(),
+                });
+            }
+        }
+        if out.is_empty() { "-".into() } else { out.join(";") }
+    }
+
+    pub fn generate(rng: &mut Rng, thorough: bool) -> Vec<String> {
+        let mut out = vec![];
+        // all sequences of length <= 5 (6 thorough) over two keys x {add, waker} + clear
+        let alphabet = ["a0.1.1.", "w0.1.1.", "a0.2.1.", "w0.2.1.", "a0.1.2.", "w0.1.2.", "x"];
+        let depth = if thorough { 6 } else { 5 };
+        let mut stack: Vec<Vec<usize>> = vec![vec![]];
+        while let Some(seq) = stack.pop() {
+            if !seq.is_empty() {
+                let ops: Vec<String> = seq
+                    .iter()
+                    .enumerate()
+                    .map(|(n, &k)| if alphabet[k] == "x" { "x".to_string() } else { format!("{}{}", alphabet[k], 10 + n) })
+                    .collect();
+                if seq.len() == depth {
+                    out.push(format!("c13.coll {}", ops.join(",")));
+                }
+            }
+            if seq.len() < depth {
+                for k in 0..alphabet.len() {
+                    let mut s = seq.clone();
+                    s.push(k);
+                    stack.push(s);
+                }
+            }
+        }
+        // random long sequences over more keys
+        for _ in 0..(if thorough { 5000 } else { 500 }) {
+            let n = 5 + rng.usize_below(60);
+            let keys = 1 + rng.usize_below(6);
+            let ops: Vec<String> = (0..n)
+                .map(|j| {
+                    let k = rng.usize_below(keys);
+                    match rng.below(20) {
+                        0 => "x".to_string(),
+                        x if x < 10 => format!("a0.{}.{}.{}", k % 3, k / 3, 100 + j),
+                        _ => format!("w0.{}.{}.{}", k % 3, k / 3, 200 + j),
+                    }
+                })
+                .collect();
+            out.push(format!("c13.coll {}", ops.join(",")));
+        }
+        out
+    }
+
+    #[test]
+    fn verif_c13_collection() {
+        run_suite("c13_collection", generate, exec);
+    }
+}
+
+mod c13_channel {
+    use std::{future::Future, num::NonZeroUsize, pin::Pin};
+
+    use futures::future::join_all;
+    use generic_array::{ArrayLength, GenericArray};
+    use typenum::{U1, U2, U3, U4, U5, U7, U8, U12, U16, U24, U31, U32};
+
+    use super::{
+        super::GatewayConfig,
+        c13_common::C13Msg,
+        c13_config::parse_total,
+    };
+    use crate::{
+        helpers::{ChannelId, Error, Role, TotalRecords},
+        ipa_verif::proto::*,
+        protocol::{Gate, RecordId},
+        test_fixture::{TestWorld, TestWorldConfig},
+        utils::NonZeroU32PowerOfTwo,
+    };
+
+    pub fn payload(g: usize, i: usize, sz: usize) -> Vec<u8> {
+        (0..sz).map(|k| ((g * 131 + i * 17 + k * 29 + 7) % 256) as u8).collect()
+    }
+
+    async fn run_script<N: ArrayLength>(active: usize, read_size: usize, total: TotalRecords, script: &str) -> String {
+        let active_p2 = NonZeroU32PowerOfTwo::try_from(active).expect("harness: active must be a power of two");
+        let world = TestWorld::new_with(TestWorldConfig {
+            gateway_config: GatewayConfig {
+                active: active_p2,
+                read_size: NonZeroUsize::new(read_size).unwrap(),
+                ..Default::default()
+            },
+            ..Default::default()
+        });
+        let tx = world.gateway(Role::H1);
+        let rx = world.gateway(Role::H2);
+        let gate = |g: usize| Gate::from(format!("verif/g{g}").as_str());
+        let mut futs: Vec<Pin<Box<dyn Future<Output = String> + '_>>> = vec![];
+        for op in script.split(',') {
+            let f: Vec<usize> = op[1..].split('.').map(|x| x.parse().unwrap()).collect();
+            let (g, i) = (f[0], f[1]);
+            match op.as_bytes()[0] {
+                b's' => {
+                    let end = tx.get_mpc_sender::<C13Msg<N>>(&ChannelId::new(Role::H2, gate(g)), total, active_p2);
+                    futs.push(Box::pin(async move {
+                        let m = C13Msg::<N>(GenericArray::try_from_iter(payload(g, i, N::USIZE)).unwrap());
+                        match end.send(RecordId::from(i), m).await {
+                            Ok(()) => "ok".to_string(),
+                            Err(Error::TooManyRecords { .. }) => "err:TooManyRecords".to_string(),
+                            Err(e) => format!("err:{e}"),
+                        }
+                    }));
+                }
+                b'r' => {
+                    let end = rx.get_mpc_receiver::<C13Msg<N>>(&ChannelId::new(Role::H1, gate(g)));
+                    futs.push(Box::pin(async move {
+                        match end.receive(RecordId::from(i)).await {
+                            Ok(m) => hex(&m.0),
+                            Err(Error::EndOfStream { .. }) => "eos".to_string(),
+                            Err(e) => format!("err:{e}"),
+                        }
+                    }));
+                }
+                _ => panic!("harness: bad op {op}"),
+            }
+        }
+        let res = join_all(futs).await;
+        res.join(";")
+    }
+
+    pub fn exec(req: &str) -> String {
+        let t: Vec<&str> = req.split(' ').collect();
+        assert_eq!(t[0], "c13.chan");
+        let active: usize = t[1].parse().unwrap();
+        let read_size: usize = t[2].parse().unwrap();
+        let sz: usize = t[3].parse().unwrap();
+        let total = parse_total(t[4]);
+        let script = t[5].to_string();
+        macro_rules! go {
+            ($n:ty) => {
+                block_on_timeout(20, run_script::<$n>(active, read_size, total, &script))
+            };
+        }
+        let r = match sz {
+            1 => go!(U1),
+            2 => go!(U2),
+            3 => go!(U3),
+            4 => go!(U4),
+            5 => go!(U5),
+            7 => go!(U7),
+            8 => go!(U8),
+            12 => go!(U12),
+            16 => go!(U16),
+            24 => go!(U24),
+            31 => go!(U31),
+            32 => go!(U32),
+            n => panic!("harness: unsupported message size {n}"),
+        };
+        match r {
+            Ok(s) => s,
+            Err(e) => e,
+        }
+    }
+
+    pub const SIZES: [usize; 12] = [1, 2, 3, 4, 5, 7, 8, 12, 16, 24, 31, 32];
+
+    /// A script: gates 0..ng, on each gate sends of records 0..n in some order interleaved with the
+    /// matching receives in some order; optionally sends beyond the total and a receive past the end.
+    fn script(rng: &mut Rng, ng: usize, n: usize, specified: bool, mode: usize) -> String {
+        let mut ops: Vec<String> = vec![];
+        for g in 0..ng {
+            let mut s: Vec<usize> = (0..n).collect();
+            let mut r: Vec<usize> = (0..n).collect();
+            match mode % 4 {
+                0 => {}
+                1 => {
+                    s.reverse();
+                }
+                2 => {
+                    r.reverse();
+                }
+                _ => {
+                    rng.shuffle(&mut s);
+                    rng.shuffle(&mut r);
+                }
+            }
+            let mut mine: Vec<String> = vec![];
+            match (mode / 4) % 3 {
+                0 => {
+                    mine.extend(s.iter().map(|i| format!("s{g}.{i}")));
+                    mine.extend(r.iter().map(|i| format!("r{g}.{i}")));
+                }
+                1 => {
+                    mine.extend(r.iter().map(|i| format!("r{g}.{i}")));
+                    mine.extend(s.iter().map(|i| format!("s{g}.{i}")));
+                }
+                _ => {
+                    for k in 0..n {
+                        mine.push(format!("s{g}.{}", s[k]));
+                        mine.push(format!("r{g}.{}", r[k]));
+                    }
+                }
+            }
+            if specified {
+                // beyond the declared total: error, nothing is sent; past the end: end of stream
+                mine.insert(rng.usize_below(mine.len() + 1), format!("s{g}.{}", n + rng.usize_below(3)));
+                if mode % 2 == 0 {
+                    mine.push(format!("r{g}.{n}"));
+                }
+            }
+            // interleave the gates
+            if g == 0 {
+                ops = mine;
+            } else {
+                let mut merged = vec![];
+                let (mut a, mut b) = (ops.into_iter(), mine.into_iter());
+                loop {
+                    match (a.next(), b.next()) {
+                        (None, None) => break,
+                        (x, y) => {
+                            merged.extend(x);
+                            merged.extend(y);
+                        }
+                    }
+                }
+                ops = merged;
+            }
+        }
+        ops.join(",")
+    }
+
+    pub fn generate(rng: &mut Rng, thorough: bool) -> Vec<String> {
+        let mut out = vec![];
+        // boundaries: one record; exactly the window; more than the window; read size around record size
+        for (a, rd, sz, n) in [(2usize, 1usize, 1usize, 1usize), (2, 1, 1, 2), (2, 1, 1, 5), (2, 4096, 3, 7), (4, 2, 3, 9), (16, 16, 1, 40), (4, 7, 7, 8), (2, 2048, 32, 6), (16, 5, 31, 33)] {
+            for mode in [0usize, 1, 2, 7, 11] {
+                out.push(format!("c13.chan {a} {rd} {sz} s{n} {}", script(rng, 1, n, true, mode)));
+                out.push(format!("c13.chan {a} {rd} {sz} i {}", script(rng, 1, n, false, mode)));
+            }
+            out.push(format!("c13.chan {a} {rd} {sz} s{n} {}", script(rng, 2, n, true, 3)));
+        }
+        let n_cases = if thorough { 1500 } else { 150 };
+        for k in 0..n_cases {
+            let a = *rng.pick(&[2usize, 4, 16]);
+            let sz = SIZES[k % SIZES.len()];
+            let rd = *rng.pick(&[1usize, 2, 3, 8, 16, 64, 2048, 4096]);
+            let n = 1 + rng.usize_below(if k % 7 == 0 { 70 } else { 3 * a });
+            let specified = rng.below(3) != 0;
+            let ng = if rng.below(4) == 0 { 2 } else { 1 };
+            let mode = rng.usize_below(12);
+            let tot = if specified { format!("s{n}") } else { "i".to_string() };
+            out.push(format!("c13.chan {a} {rd} {sz} {tot} {}", script(rng, ng, n, specified, mode)));
+        }
+        out
+    }
+
+    #[test]
+    fn verif_c13_channel() {
+        run_suite("c13_channel", generate, exec);
+    }
+}
